@@ -264,3 +264,38 @@ Theorem C03_verdict_justified : forall c acts e,
   (exists s, World.w_sug (World.run c acts) = Some s /\ sfailed (World.s_st s) = true).
 Proof. exact verdict_justified. Qed.
 Print Assumptions C03_verdict_justified.
+
+(* Over runs, exclusivity: in every state reached by a history without teardown the stored experiment never carries both
+   verdicts, and is not Running once it carries one (invariant ExInv over store, cache and pending status writes). *)
+From KV Require Proofs.WorldVerdict Proofs.MonSound Corr.WorldMon Corr.WorldC.
+Theorem C03_exclusive_over_runs : forall c acts e,
+  World.valid_cfg c -> no_teardown acts -> World.w_exp (World.run c acts) = Some e ->
+  (World.e_is (World.e_st e) World.ESucceeded && World.e_is (World.e_st e) World.EFailed = false) /\
+  (World.e_completed (World.e_st e) = true -> World.e_is (World.e_st e) World.ERunning = false).
+Proof. exact WorldVerdict.verdict_exclusive_run. Qed.
+Print Assumptions C03_exclusive_over_runs.
+
+(* Over runs, reason by reason: at the step at which a verdict appears on the stored experiment (it carried none before), the
+   trials STORED after that step back it in the way its reason says -- GoalReached: some stored trial's objective value meets
+   the goal; MaxTrialsReached: maxTrialCount (the stored experiment's) stored trials are completed; Failed: at least
+   maxFailedTrialCount (and at least one) stored trials are failed or metrics-unavailable, or the stored suggestion has
+   failed -- whatever the cache lag under which the verdict was computed.  [justified_step] is that statement as the boolean
+   monitor clause which is evaluated on the implementation's projected states. *)
+Theorem C03_verdict_reason_justified : forall w a,
+  WorldVerdict.FullInv w -> World.is_teardown a = false ->
+  WorldMon.justified_step (World.w_cfg w) (WorldC.project w) (WorldC.project (World.step w a)) = true.
+Proof. exact WorldVerdict.justified_step_model. Qed.
+Print Assumptions C03_verdict_reason_justified.
+
+(* The whole step monitor of C03 (exclusive, stable while no restart is enabled, justified by reason) holds on the model's own
+   projected states for every history without teardown. *)
+Theorem C03_run_monitor_sound : forall c acts,
+  World.valid_cfg c -> no_teardown acts ->
+  WorldMon.all_steps (WorldMon.verdict_step c) (WorldC.project (World.init c)) (MonSound.msteps (World.init c) acts) = true.
+Proof. exact WorldVerdict.verdict_monitor_sound. Qed.
+Print Assumptions C03_run_monitor_sound.
+
+(* the invariants used above hold in every reachable state *)
+Theorem C03_invariants_reachable : forall c, World.valid_cfg c -> WorldVerdict.FullInv (World.init c).
+Proof. exact WorldVerdict.FullInv_init. Qed.
+Print Assumptions C03_invariants_reachable.
